@@ -6,10 +6,13 @@
 // exact-size heap region (see Exact<T>) without a terminator, so that reading one element before or behind a view is an
 // ASan error; the C-string overloads get a second copy whose terminator is the last element.
 //
-// The same source is compiled three times (see props/registry.d/C08.json):
+// The same source is compiled four times (see props/registry.d/C08.json):
 //   C08_sv_char : Char = char, full scope
 //   C08_sv_wide : -DC08_WIDE=1 : wchar_t and char16_t with a reduced scope
 //   C08_sv_utf  : -DC08_WIDE=2 : char8_t and char32_t with a reduced scope
+//   C08_sv_ci   : -DC08_WIDE=3 : basic_string_view<char, ci_traits> (user-supplied case-insensitive traits) against
+//                 std::basic_string_view<char, ci_traits>, full scope over {a, A, b, B}
+// C08_sv_char additionally runs the "huge_sizes" sub: views of 2^31-1 .. 2^32+1 characters over a lazily mapped zero region.
 //
 // Only arguments the standard gives a meaning to are generated: substr / copy / compare(pos1, ...) /
 // compare(..., pos2, ...) with pos <= size(), remove_prefix/suffix with n <= size(), operator[] with pos < size(),
@@ -19,9 +22,13 @@
 // exist on this tree), hash.
 #include <etl/string_view.hpp>
 
+#include <compare>
 #include <cwchar>
+#include <iosfwd>
 #include <string>
 #include <string_view>
+
+#include <sys/mman.h>
 
 #include "verif.hpp"
 
@@ -67,6 +74,95 @@ struct Exact {
     Exact(Exact const&)                    = delete;
     auto operator=(Exact const&) -> Exact& = delete;
 };
+
+// ---------------------------------------------------------------- user-supplied character traits
+// The textbook case-insensitive traits ('A'..'Z' fold to 'a'..'z', nothing else; no locale).  Standalone on purpose: a
+// traits class derived from std::char_traits drags namespace std into ADL of etl's unqualified begin/end calls.
+// Every search / comparison of basic_string_view has to go through Traits::eq / lt / compare / find / length; the oracle
+// is std::basic_string_view<char, ci_traits>.
+struct ci_traits {
+    using char_type           = char;
+    using int_type            = int;
+    using off_type            = std::streamoff;
+    using pos_type            = std::streampos;
+    using state_type          = std::mbstate_t;
+    using comparison_category = std::weak_ordering;
+    static constexpr auto fold(char c) noexcept -> unsigned char { return static_cast<unsigned char>(c >= 'A' && c <= 'Z' ? c - 'A' + 'a' : c); }
+    static constexpr void assign(char& a, char const& b) noexcept { a = b; }
+    static constexpr auto eq(char a, char b) noexcept -> bool { return fold(a) == fold(b); }
+    static constexpr auto lt(char a, char b) noexcept -> bool { return fold(a) < fold(b); }
+    static constexpr auto compare(char const* a, char const* b, std::size_t n) noexcept -> int
+    {
+        for (std::size_t i = 0; i < n; ++i) {
+            if (lt(a[i], b[i])) { return -1; }
+            if (lt(b[i], a[i])) { return 1; }
+        }
+        return 0;
+    }
+    static constexpr auto length(char const* s) noexcept -> std::size_t
+    {
+        std::size_t n = 0;
+        while (s[n] != char(0)) { ++n; }
+        return n;
+    }
+    static constexpr auto find(char const* s, std::size_t n, char const& c) noexcept -> char const*
+    {
+        for (std::size_t i = 0; i < n; ++i) {
+            if (eq(s[i], c)) { return s + i; }
+        }
+        return nullptr;
+    }
+    static constexpr auto move(char* d, char const* s, std::size_t n) noexcept -> char*
+    {
+        if (d < s) {
+            for (std::size_t i = 0; i < n; ++i) { d[i] = s[i]; }
+        } else {
+            for (std::size_t i = n; i > 0; --i) { d[i - 1] = s[i - 1]; }
+        }
+        return d;
+    }
+    static constexpr auto copy(char* d, char const* s, std::size_t n) noexcept -> char*
+    {
+        for (std::size_t i = 0; i < n; ++i) { d[i] = s[i]; }
+        return d;
+    }
+    static constexpr auto assign(char* s, std::size_t n, char a) noexcept -> char*
+    {
+        for (std::size_t i = 0; i < n; ++i) { s[i] = a; }
+        return s;
+    }
+    static constexpr auto to_char_type(int_type c) noexcept -> char { return static_cast<char>(c); }
+    static constexpr auto to_int_type(char c) noexcept -> int_type { return static_cast<unsigned char>(c); }
+    static constexpr auto eq_int_type(int_type a, int_type b) noexcept -> bool { return a == b; }
+    static constexpr auto eof() noexcept -> int_type { return -1; }
+    static constexpr auto not_eof(int_type c) noexcept -> int_type { return c == eof() ? 0 : c; }
+};
+template <typename Char, bool Ci>
+struct Views {
+    using EV = etl::basic_string_view<Char>;
+    using SV = std::basic_string_view<Char>;
+};
+template <>
+struct Views<char, true> {
+    using EV = etl::basic_string_view<char, ci_traits>;
+    using SV = std::basic_string_view<char, ci_traits>;
+};
+
+// ---------------------------------------------------------------- huge views
+// 4 GiB + 2 pages of lazily mapped zero pages (MAP_NORESERVE): views of size around 2^31 and 2^32 can be formed over it
+// without touching more than a few pages, as long as only calls that stop at the SHORTER view's length are made.
+// Index 100 holds 'q', everything else is 0.  If the mapping cannot be made the sub-check is counted as "not run".
+constexpr std::size_t HUGE_LEN = (std::size_t{1} << 32) + 2 * 4096;
+auto huge_map() -> char*
+{
+    static char* const p = [] {
+        void* m = ::mmap(nullptr, HUGE_LEN, PROT_READ | PROT_WRITE, MAP_PRIVATE | MAP_ANONYMOUS | MAP_NORESERVE, -1, 0);
+        if (m == MAP_FAILED) { return static_cast<char*>(nullptr); }
+        static_cast<char*>(m)[100] = 'q';
+        return static_cast<char*>(m);
+    }();
+    return p;
+}
 
 // ---------------------------------------------------------------- functions under test
 #define SEARCHES(X) X(find) X(rfind) X(find_first_of) X(find_last_of) X(find_first_not_of) X(find_last_not_of)
@@ -149,8 +245,8 @@ auto fn_info(int fn) -> FnInfo
 }
 
 // ---------------------------------------------------------------- case
-enum CharKind { CK_CHAR, CK_WCHAR, CK_CHAR16, CK_CHAR8, CK_CHAR32 };
-char const* const ck_names[] = {"char", "wchar_t", "char16_t", "char8_t", "char32_t"};
+enum CharKind { CK_CHAR, CK_WCHAR, CK_CHAR16, CK_CHAR8, CK_CHAR32, CK_CI, CK_COUNT };
+char const* const ck_names[] = {"char", "wchar_t", "char16_t", "char8_t", "char32_t", "char_ci"};
 
 struct Case {
     int ck{CK_CHAR};
@@ -159,6 +255,8 @@ struct Case {
     bool nnull{false}; // needle view is default-constructed (only the view overloads differ from the empty needle)
     std::vector<std::uint32_t> hay, nee; // code units
     std::size_t pos{0}, cnt{0}, pos2{0}, cnt2{0};
+    std::size_t hhuge{0};  // != 0: the haystack is a view of this size over the huge zero mapping (hay is ignored)
+    bool swapped{false};   // the needle view is the object, the haystack view the argument (view overloads only)
 };
 auto num(std::size_t v) -> std::string { return v == NPOS ? std::string("npos") : std::to_string(v); }
 auto units(std::vector<std::uint32_t> const& v, bool null) -> std::string
@@ -175,7 +273,7 @@ auto units(std::vector<std::uint32_t> const& v, bool null) -> std::string
 }
 auto show_case(Case const& k) -> std::string
 {
-    return std::string(ck_names[k.ck]) + " " + fn_names[k.fn] + " " + units(k.hay, k.hnull) + " " + units(k.nee, k.nnull) + " " + num(k.pos) + " " + num(k.cnt) + " " + num(k.pos2) + " " + num(k.cnt2);
+    return std::string(ck_names[k.ck]) + " " + (k.swapped ? "swap:" : "") + fn_names[k.fn] + " " + (k.hhuge != 0 ? "huge:" + std::to_string(k.hhuge) : units(k.hay, k.hnull)) + " " + units(k.nee, k.nnull) + " " + num(k.pos) + " " + num(k.cnt) + " " + num(k.pos2) + " " + num(k.cnt2);
 }
 auto parse_units(std::string const& s, std::vector<std::uint32_t>& out, bool& null) -> void
 {
@@ -193,8 +291,15 @@ auto parse_case(std::string const& cs, Case& k) -> bool
     std::string ck, fn, h, n, a, b, c, d;
     if (!(ss >> ck >> fn >> h >> n >> a >> b >> c >> d)) { return false; }
     k.ck = -1;
-    for (int i = 0; i < 5; ++i) {
+    for (int i = 0; i < CK_COUNT; ++i) {
         if (ck == ck_names[i]) { k.ck = i; }
+    }
+    k.swapped = fn.rfind("swap:", 0) == 0;
+    if (k.swapped) { fn = fn.substr(5); }
+    k.hhuge = 0;
+    if (h.rfind("huge:", 0) == 0) {
+        k.hhuge = static_cast<std::size_t>(std::strtoull(h.c_str() + 5, nullptr, 10));
+        h       = "-";
     }
     k.fn = -1;
     for (int i = 0; i < FN_COUNT; ++i) {
@@ -217,6 +322,12 @@ struct Bufs {
     bool hnull, nnull;
     Bufs(Case const& k) : hay{k.hay.size()}, nee{k.nee.size()}, hayz{k.hay.size() + 1}, neez{k.nee.size() + 1}, hnull{k.hnull}, nnull{k.nnull}
     {
+        if constexpr (sizeof(Char) == 1) {
+            if (k.hhuge != 0) { // the exact block stays empty; the view goes over the huge mapping
+                hay.p = reinterpret_cast<Char*>(huge_map());
+                hay.n = k.hhuge;
+            }
+        }
         for (std::size_t i = 0; i < k.hay.size(); ++i) { hay.p[i] = hayz.p[i] = static_cast<Char>(k.hay[i]); }
         for (std::size_t i = 0; i < k.nee.size(); ++i) { nee.p[i] = neez.p[i] = static_cast<Char>(k.nee[i]); }
         hayz.p[k.hay.size()] = Char(0);
@@ -257,15 +368,19 @@ auto text(V const& v) -> std::string
 }
 
 // ---------------------------------------------------------------- ONE differential call
-template <typename Char>
+template <typename Char, bool Ci = false>
 auto run_call(Bufs<Char> const& b, Case const& k) -> std::string
 {
-    using EV = etl::basic_string_view<Char>;
-    using SV = std::basic_string_view<Char>;
-    EV const eh = b.hnull ? EV{} : EV{b.hay.p, b.hay.n};
-    SV const sh = b.hnull ? SV{} : SV{b.hay.p, b.hay.n};
-    EV const en = b.nnull ? EV{} : EV{b.nee.p, b.nee.n};
-    SV const sn = b.nnull ? SV{} : SV{b.nee.p, b.nee.n};
+    using EV = typename Views<Char, Ci>::EV;
+    using SV = typename Views<Char, Ci>::SV;
+    EV const eh0 = b.hnull ? EV{} : EV{b.hay.p, b.hay.n};
+    SV const sh0 = b.hnull ? SV{} : SV{b.hay.p, b.hay.n};
+    EV const en0 = b.nnull ? EV{} : EV{b.nee.p, b.nee.n};
+    SV const sn0 = b.nnull ? SV{} : SV{b.nee.p, b.nee.n};
+    EV const eh  = k.swapped ? en0 : eh0;
+    SV const sh  = k.swapped ? sn0 : sh0;
+    EV const en  = k.swapped ? eh0 : en0;
+    SV const sn  = k.swapped ? sh0 : sn0;
     Char const* const np = b.nee.p;  // exact, no terminator
     Char const* const nz = b.neez.p; // terminator is the last element
     auto const nn        = b.nee.n;
@@ -524,14 +639,14 @@ void rand_args(int fn, std::size_t hn, std::size_t nn, Case& k, vf::Rng& r, F f)
 
 // ---------------------------------------------------------------- statistics (batched: the per-call engine calls cost more than the calls under test)
 struct Tally {
-    std::uint64_t evals[4]{}; // per sub
+    std::uint64_t evals[5]{}; // per sub
     std::uint64_t cls[9]{};   // class hits
     std::uint64_t searches{0}, compares{0}, total{0};
 } g_t;
-char const* const sub_names[] = {"search", "compare", "prefix_suffix_contains", "substr_copy_access"};
+char const* const sub_names[] = {"search", "compare", "prefix_suffix_contains", "substr_copy_access", "huge_sizes"};
 // classes 0..5 are fractions of the search calls, 6 of the compare/relational calls, 7..8 of all calls
 char const* const cls_names[] = {"search: empty needle", "search: empty haystack", "search: pos >= size", "search: needle longer than haystack", "search: match at position != 0", "search: nothing found (npos)",
-    "compare: result != 0", "all: NUL or >= 0x80 unit involved", "all: haystack is a null view"};
+    "compare: result != 0", "all: NUL or >= 0x80 unit (ci_traits: a unit the traits fold) involved", "all: haystack is a null view"};
 auto sub_of(int fn) -> int
 {
     if (fn < N_SEARCH_FNS) { return 0; }
@@ -541,7 +656,7 @@ auto sub_of(int fn) -> int
 }
 void flush_tally()
 {
-    for (int i = 0; i < 4; ++i) {
+    for (int i = 0; i < 5; ++i) {
         if (g_t.evals[i]) { vf::eval(sub_names[i], g_t.evals[i]); }
         g_t.evals[i] = 0;
     }
@@ -555,30 +670,31 @@ void flush_tally()
 }
 
 struct PairFlags {
-    bool special{false}; // NUL or >= 0x80 unit in haystack or needle
+    bool special{false}; // NUL or >= 0x80 unit in haystack or needle; for ci_traits also an upper-case letter
 };
 auto pair_flags(Case const& k) -> PairFlags
 {
     PairFlags f;
-    for (auto u : k.hay) { f.special = f.special || u == 0 || u >= 0x80; }
-    for (auto u : k.nee) { f.special = f.special || u == 0 || u >= 0x80; }
+    bool const ci = k.ck == CK_CI;
+    for (auto u : k.hay) { f.special = f.special || u == 0 || u >= 0x80 || (ci && u >= 'A' && u <= 'Z'); }
+    for (auto u : k.nee) { f.special = f.special || u == 0 || u >= 0x80 || (ci && u >= 'A' && u <= 'Z'); }
     return f;
 }
 
 // executes the call described by k (buffers b belong to k's haystack/needle); returns false after a mismatch
-template <typename Char>
+template <typename Char, bool Ci = false>
 auto one(Bufs<Char> const& b, Case const& k, PairFlags pf, bool random, bool digest = true) -> bool
 {
     auto const info = fn_info(k.fn);
-    auto const sub  = sub_of(k.fn);
-    auto d          = run_call<Char>(b, k);
+    auto const sub  = k.hhuge != 0 ? 4 : sub_of(k.fn);
+    auto d          = run_call<Char, Ci>(b, k);
     if (!d.empty()) {
         vf::mismatch(sub_names[sub], k, d);
         return false;
     }
     ++g_t.evals[sub];
     ++g_t.total;
-    auto const hn      = k.hay.size();
+    auto const hn      = k.hhuge != 0 ? k.hhuge : k.hay.size();
     auto const nn      = k.nee.size();
     bool const has_pos = info.args != A_NONE && info.args != A_C1;
     bool const c0      = info.uses_needle && nn == 0;
@@ -595,7 +711,7 @@ auto one(Bufs<Char> const& b, Case const& k, PairFlags pf, bool random, bool dig
         g_t.cls[3] += c3;
         g_t.cls[4] += c4;
         g_t.cls[5] += g_last == -1;
-    } else if (sub == 1) {
+    } else if (sub_of(k.fn) == 1) {
         ++g_t.compares;
         g_t.cls[6] += k.fn == rel_vv || k.fn == rel_vz || k.fn == rel_zv ? (g_last & 1) == 0 : g_last != 0;
     }
@@ -610,12 +726,20 @@ auto one(Bufs<Char> const& b, Case const& k, PairFlags pf, bool random, bool dig
             h               = vf::fnv(k.nee.data(), k.nee.size() * 4, vf::mix(h, 0xFF));
             vf::nontrivial(h);
         }
-        static std::uint64_t nth[4] = {0, 0, 0, 0};
-        if ((c4 || sub != 0) && hn >= 2 && (++nth[sub] % 4099) == 1) {
+        static std::uint64_t nth[5] = {0, 0, 0, 0, 0};
+        if ((c4 || sub != 0) && hn >= 2 && (++nth[sub] % (sub == 4 ? 97 : 4099)) == 1) {
             vf::sample(sub_names[sub], [&] { return show_case(k) + " -> std answers " + (info.is_search ? lnum(g_last) : std::to_string(g_last)); });
         }
     }
     return true;
+}
+
+// ci_traits runs: the same letter in the other case (what the traits fold together)
+auto flip_case(std::uint32_t u) -> std::uint32_t
+{
+    if (u >= 'a' && u <= 'z') { return u - 32; }
+    if (u >= 'A' && u <= 'Z') { return u + 32; }
+    return u;
 }
 
 // all strings of length <= maxlen over the alphabet, shortest first
@@ -650,7 +774,7 @@ struct Scope {
 };
 
 // ---------------------------------------------------------------- enumeration of one character type
-template <typename Char>
+template <typename Char, bool Ci = false>
 void enumerate(vf::Ctx& c, Scope<Char> const& sc, std::uint64_t& work)
 {
     auto const hays = all_strings(sc.alpha, sc.hmax);
@@ -677,7 +801,7 @@ void enumerate(vf::Ctx& c, Scope<Char> const& sc, std::uint64_t& work)
                 k.fn    = fn;
                 bool ok = true;
                 for_args(fn, k.hay.size(), k.nee.size(), k, [&] {
-                    if (ok) { ok = one<Char>(b, k, pf, false); }
+                    if (ok) { ok = one<Char, Ci>(b, k, pf, false); }
                 });
                 if (!ok && !c.memory_only) { return; }
             }
@@ -687,7 +811,7 @@ void enumerate(vf::Ctx& c, Scope<Char> const& sc, std::uint64_t& work)
 }
 
 // ---------------------------------------------------------------- random longer strings
-template <typename Char>
+template <typename Char, bool Ci = false>
 void random_pairs(vf::Ctx& c, Scope<Char> const& sc)
 {
     vf::Rng r{c.seed * 977 + static_cast<std::uint64_t>(sc.ck)};
@@ -720,6 +844,11 @@ void random_pairs(vf::Ctx& c, Scope<Char> const& sc)
             auto const ln = r.below(7);
             for (std::size_t i = 0; i < ln; ++i) { k.nee.push_back(al[r.below(al.size())]); }
         }
+        if constexpr (Ci) { // the needle in (randomly) different case than the haystack
+            for (auto& u : k.nee) {
+                if (r.below(2) == 0) { u = flip_case(u); }
+            }
+        }
         Bufs<Char> b{k};
         auto const pf = pair_flags(k);
         vf::Flight<Case> fl("random", k);
@@ -730,7 +859,7 @@ void random_pairs(vf::Ctx& c, Scope<Char> const& sc)
             bool ok = true;
             for (int rep = 0; rep < (info.args == A_NONE ? 1 : 3); ++rep) {
                 rand_args(fn, k.hay.size(), k.nee.size(), k, r, [&] {
-                    if (ok) { ok = one<Char>(b, k, pf, true, rep == 0); }
+                    if (ok) { ok = one<Char, Ci>(b, k, pf, true, rep == 0); }
                 });
             }
             if (!ok && !c.memory_only) { return; }
@@ -841,10 +970,10 @@ auto long_haystacks(std::vector<std::uint32_t> const& sym, LongNeedle const& ln)
     return out;
 }
 
-template <typename Char>
+template <typename Char, bool Ci = false>
 void structured(vf::Ctx& c, Scope<Char> const& sc, std::uint64_t& work)
 {
-    using SV = std::basic_string_view<Char>;
+    using SV = typename Views<Char, Ci>::SV;
     Case k;
     k.ck = sc.ck;
     for (std::size_t L : {7U, 8U, 9U, 15U, 16U, 17U, 31U, 32U, 33U, 63U, 64U, 65U, 127U, 128U, 129U, 255U, 256U, 257U}) {
@@ -856,6 +985,9 @@ void structured(vf::Ctx& c, Scope<Char> const& sc, std::uint64_t& work)
                 k.hnull = k.nnull = false;
                 k.hay             = hay;
                 k.nee             = ln.n;
+                if constexpr (Ci) { // every other haystack unit in the other case
+                    for (std::size_t i = 1; i < k.hay.size(); i += 2) { k.hay[i] = flip_case(k.hay[i]); }
+                }
                 Bufs<Char> b{k};
                 auto const pf = pair_flags(k);
                 vf::Flight<Case> fl("structured", k);
@@ -885,7 +1017,7 @@ void structured(vf::Ctx& c, Scope<Char> const& sc, std::uint64_t& work)
                     k.cnt  = cnt;
                     k.pos2 = pos2;
                     k.cnt2 = cnt2;
-                    ok     = one<Char>(b, k, pf, false);
+                    ok     = one<Char, Ci>(b, k, pf, false);
                 };
                 for (int fam = 0; fam < 6; ++fam) {
                     bool const substring_search = fam <= 1; // find, rfind
@@ -918,29 +1050,137 @@ void structured(vf::Ctx& c, Scope<Char> const& sc, std::uint64_t& work)
     }
 }
 
-template <typename Char>
+// ---------------------------------------------------------------- huge sizes
+// Views of size around 2^31 and 2^32 over the zero mapping against empty / short views, in both roles.  Only calls that
+// stop at the shorter view's length, find their answer within the first few hundred units, or start a few units before
+// the end are made, so nothing large is read.  Size arithmetic (compare's length tie-break, substr/copy/remove_* clamps,
+// rfind's position clamp) must not pass through a 32-bit or signed type.
+[[maybe_unused]] void huge_sizes(vf::Ctx& c, std::uint64_t& work)
+{
+    if (!c.mine(work++)) { return; }
+    if (huge_map() == nullptr) {
+        vf::count("huge_sizes: mmap of 4 GiB (MAP_NORESERVE) failed - sub-check not run");
+        return;
+    }
+    constexpr std::size_t G2 = std::size_t{1} << 31, G4 = std::size_t{1} << 32;
+    std::vector<std::size_t> sizes{G2 - 1, G2, G2 + 1, G4, G4 + 1, 3 * (G2 / 2)};
+    if (c.thorough()) {
+        for (std::size_t s : {G4 - 1, G2 + G2 / 2 + 1, G2 - 2, G4 + 4096}) { sizes.push_back(s); }
+    }
+    std::vector<Units> const needles{{}, {0}, {0, 0, 0}, {'q'}};
+    Case k;
+    k.ck = CK_CHAR;
+    for (auto S : sizes) {
+        for (auto const& nee : needles) {
+            k.hnull = k.nnull = false;
+            k.hhuge           = S;
+            k.hay.clear();
+            k.nee = nee;
+            Bufs<char> b{k};
+            auto const pf = pair_flags(k);
+            vf::Flight<Case> fl("huge_sizes", k);
+            auto const nn = nee.size();
+            bool ok       = true;
+            auto call     = [&](bool swapped, int fn, std::size_t pos, std::size_t cnt, std::size_t pos2, std::size_t cnt2) {
+                if (!ok) { return; }
+                k.swapped = swapped;
+                k.fn      = fn;
+                k.pos     = pos;
+                k.cnt     = cnt;
+                k.pos2    = pos2;
+                k.cnt2    = cnt2;
+                ok        = one<char>(b, k, pf, false);
+            };
+            bool const is_q = nn == 1 && nee[0] == 'q';
+            // ---- the huge view is the object
+            for (int fn : {cmp_v, cmp_z, rel_vv, rel_vz, rel_zv, sw_v, sw_z, ew_v, ew_z, ct_v, ct_z, substr_d, frontback, observers}) { call(false, fn, 0, 0, 0, 0); }
+            if (nn == 1) {
+                for (int fn : {sw_c, ew_c, ct_c}) { call(false, fn, 0, 0, 0, 0); }
+            }
+            for (auto pos : {std::size_t{0}, std::size_t{1}, std::size_t{99}, G2 - 1, G2, S - 1, S}) {
+                if (pos > S) { continue; }
+                for (auto cnt : {std::size_t{0}, std::size_t{2}, S, S - 1, G2, NPOS}) {
+                    for (int fn : {cmp_ppv, cmp_ppz, cmp_ppzn, substr_pc}) { call(false, fn, pos, cnt, 0, 0); }
+                    call(false, cmp_ppvpp, pos, cnt, 0, NPOS);
+                    call(false, cmp_ppvpp, pos, cnt, nn, 1);
+                }
+                for (int fn : {substr_p, rmprefix, rmsuffix}) { call(false, fn, pos, 0, 0, 0); }
+                for (auto cnt : {std::size_t{0}, std::size_t{3}}) { call(false, copy_cp, pos, cnt, 0, 0); }
+                if (pos < S) { call(false, elem, pos, 0, 0, 0); }
+            }
+            call(false, copy_c, 0, 3, 0, 0);
+            // forward searches: the answer lies at 0 or 100, or the search starts 2 units before the end
+            for (int fam : {0, 2, 4}) { // find, find_first_of, find_first_not_of
+                for (auto pos : {std::size_t{0}, std::size_t{50}, std::size_t{100}, S - 2, S - 1, S, S + 1, NPOS}) {
+                    // find_first_not_of("q") from 100 on and find/find_first_of("q") from 101 on would walk 4 GiB of zeros - not generated
+                    if (is_q && fam == 4 && pos == 100) { continue; }
+                    // etl's find_first_of with an EMPTY needle visits every position (no character is read, the answer npos is right,
+                    // but it takes size() steps where std answers at once): not generated on huge views
+                    // (the C-string forms see an empty needle whenever the needle starts with NUL)
+                    if (nn == 0 && fam == 2) { continue; }
+                    for (int form : {0, 4, 5}) {
+                        if (fam == 2 && form == 5 && !is_q) { continue; }
+                        call(false, fam * 7 + form, pos, 0, 0, 0);
+                    }
+                    if (nn == 1) { call(false, fam * 7 + 2, pos, 0, 0, 0); }
+                }
+                if (nn == 0 && fam == 2) { continue; }
+                for (int form : {1, 6}) {
+                    if (fam == 2 && form == 6 && !is_q) { continue; }
+                    call(false, fam * 7 + form, 0, 0, 0, 0);
+                }
+                if (nn == 1) { call(false, fam * 7 + 3, 0, 0, 0, 0); }
+            }
+            // backward searches from a small position only (the default npos would walk the whole view)
+            for (int fam : {1, 3, 5}) { // rfind, find_last_of, find_last_not_of
+                for (auto pos : {std::size_t{0}, std::size_t{50}, std::size_t{100}, std::size_t{200}}) {
+                    for (int form : {0, 4, 5}) { call(false, fam * 7 + form, pos, 0, 0, 0); }
+                    if (nn == 1) { call(false, fam * 7 + 2, pos, 0, 0, 0); }
+                }
+            }
+            // ---- the short view is the object, the huge view the argument
+            for (int fn : {cmp_v, rel_vv, sw_v, ew_v, ct_v, find_v, find_vd, rfind_v, rfind_vd, find_first_of_v, find_first_not_of_v, find_last_of_v, find_last_not_of_v}) {
+                call(true, fn, fn == rfind_v || fn == find_last_of_v || fn == find_last_not_of_v ? NPOS : 0, 0, 0, 0);
+            }
+            for (std::size_t pos = 0; pos <= nn; ++pos) {
+                for (auto cnt : {std::size_t{0}, std::size_t{1}, NPOS}) {
+                    call(true, cmp_ppv, pos, cnt, 0, 0);
+                    for (auto pos2 : {std::size_t{0}, std::size_t{99}, G2, S - 1, S}) {
+                        if (pos2 > S) { continue; }
+                        for (auto cnt2 : {std::size_t{0}, std::size_t{2}, G2, S, NPOS}) { call(true, cmp_ppvpp, pos, cnt, pos2, cnt2); }
+                    }
+                }
+            }
+            k.swapped = false;
+            if (!ok && !c.memory_only) { return; }
+            flush_tally();
+        }
+    }
+}
+
+template <typename Char, bool Ci = false>
 auto replay_one(Case const& k) -> std::string
 {
     Bufs<Char> b{k};
     vf::Flight<Case> fl("replay", k);
-    return run_call<Char>(b, k);
+    return run_call<Char, Ci>(b, k);
 }
 
 } // namespace
 
 // the second, smaller enumeration puts the extreme code units of the type next to 'a' and NUL
-template <typename Char>
+template <typename Char, bool Ci = false>
 void run_type(vf::Ctx& c, Scope<Char> const& sc, std::uint64_t& work)
 {
-    enumerate<Char>(c, sc, work);
+    enumerate<Char, Ci>(c, sc, work);
     auto ex     = sc;
     ex.alpha    = {sc.alpha[0], 0};
     ex.alpha.insert(ex.alpha.end(), sc.extreme.begin(), sc.extreme.end());
     ex.hmax     = c.thorough() ? 3U : 2U;
     ex.nmax     = 2U;
-    enumerate<Char>(c, ex, work);
-    structured<Char>(c, sc, work);
-    random_pairs<Char>(c, sc);
+    enumerate<Char, Ci>(c, ex, work);
+    structured<Char, Ci>(c, sc, work);
+    random_pairs<Char, Ci>(c, sc);
 }
 
 void vf_run(vf::Ctx& c)
@@ -952,12 +1192,18 @@ void vf_run(vf::Ctx& c)
     // the property's scope: all haystacks of length <= 4 (thorough 5), needles <= 3 (4) over {a, b, NUL, 0xE9}
     Scope<char> sc{CK_CHAR, {'a', 'b', 0, 0xE9}, t ? 5U : 4U, t ? 4U : 3U, t ? 5000U : 2500U, 64, {0x7F, 0x80, 0xFF}, {'a', 'x', 'y', 'z', 0xE9}, 257};
     run_type<char>(c, sc, work);
+    huge_sizes(c, work);
 #elif C08_WIDE == 1
     // wchar_t is a signed 32-bit type here and std::char_traits<wchar_t> orders it with the built-in <: negative units sort first
     Scope<wchar_t> sw{CK_WCHAR, {L'a', L'b', 0, 0x20AC}, t ? 4U : 3U, t ? 3U : 2U, t ? 4000U : 1200U, 64, {u(-1), u(WCHAR_MIN), u(WCHAR_MAX), 0x100, 0xFF}, {L'a', L'x', u(-1), L'z', u(WCHAR_MAX)}, t ? 257U : 129U};
     run_type<wchar_t>(c, sw, work);
     Scope<char16_t> s16{CK_CHAR16, {u'a', u'b', 0, 0xD83D}, t ? 4U : 3U, t ? 3U : 2U, t ? 4000U : 1200U, 64, {0xD800, 0xDFFF, 0xFFFF, 0x0100, 0x00FF}, {u'a', u'x', 0xFFFF, u'z', 0xD800}, t ? 257U : 129U};
     run_type<char16_t>(c, s16, work);
+#elif C08_WIDE == 3
+    // user-supplied traits: basic_string_view<char, ci_traits> against std::basic_string_view<char, ci_traits>.  The second
+    // enumeration adds the neighbours of the folded ranges ('@' '[' '`' '{'), Z/z, NUL and two Latin-1 letters the traits must NOT fold.
+    Scope<char> sci{CK_CI, {'a', 'A', 'b', 'B'}, t ? 5U : 4U, 3U, t ? 5000U : 2000U, 64, {'@', '[', '`', '{', 'Z', 'z', 0xC1, 0xE1}, {'a', 'X', 'y', 'Z', 'B'}, t ? 257U : 129U};
+    run_type<char, true>(c, sci, work);
 #else
     Scope<char8_t> s8{CK_CHAR8, {u8'a', u8'b', 0, 0xC3}, t ? 4U : 3U, t ? 3U : 2U, t ? 4000U : 1200U, 64, {0x80, 0xFF, 0x7F}, {u8'a', u8'x', 0xFF, u8'z', 0x80}, t ? 257U : 129U};
     run_type<char8_t>(c, s8, work);
@@ -973,12 +1219,21 @@ std::string vf_replay(std::string const& sub, std::string const& cs)
     if (!parse_case(cs, k)) { return "harness: cannot parse case string"; }
     auto const info = fn_info(k.fn);
     if (info.needs_char && k.nee.size() != 1) { return "harness: single-character overload needs a needle of length 1"; }
+    if (k.swapped && !(k.fn < N_SEARCH_FNS ? k.fn % 7 <= 1 : (k.fn == cmp_v || k.fn == cmp_ppv || k.fn == cmp_ppvpp || k.fn == sw_v || k.fn == ew_v || k.fn == ct_v || k.fn == rel_vv))) {
+        return "harness: swap: is only defined for the overloads that take a view";
+    }
+    if (k.hhuge != 0) {
+        if (k.ck != CK_CHAR || k.hhuge > HUGE_LEN) { return "harness: huge views exist for char only, up to 4 GiB + 2 pages"; }
+        if (huge_map() == nullptr) { return {}; } // cannot be run here: not a failure
+    }
     switch (k.ck) {
 #if !defined(C08_WIDE)
     case CK_CHAR: return replay_one<char>(k);
 #elif C08_WIDE == 1
     case CK_WCHAR: return replay_one<wchar_t>(k);
     case CK_CHAR16: return replay_one<char16_t>(k);
+#elif C08_WIDE == 3
+    case CK_CI: return replay_one<char, true>(k);
 #else
     case CK_CHAR8: return replay_one<char8_t>(k);
     case CK_CHAR32: return replay_one<char32_t>(k);
